@@ -676,7 +676,10 @@ class _State:
                 # replace the archive through the wrapper's own archive(obj): results left in the old archive are out of reach
                 import klepto.archives as KA
                 self.nswap = getattr(self, 'nswap', 0) + 1
-                g.archive(KA.dict_archive('swapped%d' % self.nswap, cached=False))
+                try:
+                    g.archive(KA.dict_archive('swapped%d' % self.nswap, cached=False))
+                except (ValueError, AttributeError):
+                    pass                 # an archive used directly as the cache has no archive of its own to replace
                 self.lossless = False
                 mem0, arch0 = self.snap()
             mem, arch = self.snap()
